@@ -163,6 +163,18 @@ def run(ctx):
     irows = sorted([r for r in core.read_jsonl(trace) if r.get("k") == "iso"], key=lambda r: r["sc"])
     if rc != 0 or not irows:
         ctx.problem("correspondence", "go harness C20 (isolation)", out[-1500:])
+    # bursts: many-signature VAAs published back to back to reading (slow and fast) subscribers; monitors only
+    rc, out, trace = core.harness_pkg(ctx, "spy", "^TestVerifC20Burst$", race=(ctx.tier == "thorough"), timeout=1500)
+    brows = [r for r in core.read_jsonl(trace) if r.get("k") == "burst"]
+    if rc != 0 or not brows:
+        ctx.problem("correspondence", "go harness C20 (bursts)", out[-1500:])
+    for r in brows:
+        if r.get("mon"):
+            ctx.problem("monitor", r["mon"][0], "observed on the implementation (burst round %d, %d VAAs to %d reading subscribers)" % (r["sc"], r["published"], r["subscribers"]),
+                        concrete=True, replay={"burst": r}, key="burst:" + ("blocked" if "did not return" in r["mon"][0] else "delivery"))
+            break
+    ctx.cov["burst_rounds"] = len(brows)
+    ctx.cov["burst_publishes"] = sum(r.get("published", 0) for r in brows)
     rows = mrows + irows
     if not rows:
         return
